@@ -24,11 +24,11 @@ CHECKS = {
             "is a trusted reference in the harness; intermediate local frames are judged to 1e-7 degree / 1 cm only", "5/C14"),
     "C13": ("IOLayout", "TLA+ model of the file layer (relative column order of the writer vs absolute indices of the reader, "
             "class-level time formats with explicit save / install / restore steps, GPX forcing the ISO format, network rows "
-            "and header skipping) checked by TLC; every configuration, history and network printed by the model with its "
+            "and header skipping, the no-data rule of the reader) checked by TLC; every configuration, history and network printed by the model with its "
             "expected read-back is replayed through real files (spec->code)",
-            "TLC: round-trip law on all 1368 column-permutation x separator x coordinate-system x time-format configurations, "
-            "formats restored on all histories of 4 (thorough 5) public calls, network round trip for header 0/1 (three refuted "
-            "variants as self-tests). All 1368 configurations (two stress-value tracks each, WKT round trip), all histories "
+            "TLC: round-trip law on all 3192 column-permutation x separator x coordinate-system x time-format x near-no-data-datum configurations, "
+            "formats restored on all histories of 4 (thorough 5) public calls, network round trip for header 0/1 (four refuted "
+            "variants as self-tests). All 3192 configurations (two stress-value tracks each, WKT round trip), all histories "
             "(two CSV files, one GPX file, format changes in between) and all 17 820 small networks are written and read "
             "back for real: count, order, coordinates at the written precision, timestamps to the second, global formats after "
             "each call, nodes / edges / end nodes / orientations / geometries.",
